@@ -31,6 +31,9 @@ type c20Node struct {
 	mode     os.FileMode
 	kind     string // ok | fail | invalid
 	variant  int
+	// class != "": a generated configuration (c20_cfg.go, c20GenSchedules); the hook prints text,
+	// kind (ok | invalid) is its fixed verdict
+	class, text string
 }
 
 var c20FileNames = []string{"a", "b", "c", "hook", "hook.sh", "a.sh", "a-b", "a0", "a.yaml", "b.json", "r.md", "n.txt",
@@ -78,6 +81,9 @@ func c20GenDir(rng *Rng, depth int, isRoot bool) []*c20Node {
 		default:
 			nd.kind = "invalid"
 		}
+		if nd.kind != "fail" && rng.Chance(12) {
+			nd.kind, nd.class, nd.text = c20GenSchedules(rng, nd.kind == "invalid")
+		}
 		out = append(out, nd)
 	}
 	sort.Slice(out, func(i, j int) bool { return out[i].name < out[j].name }) // the order filepath.Walk visits
@@ -89,14 +95,25 @@ type c20Env struct {
 	euid          int
 }
 
+// out is what the file prints on --config (kinds ok and invalid)
+func (e *c20Env) out(nd *c20Node) c20Out {
+	switch {
+	case nd.class != "":
+		return c20Out{nd.class, nd.text}
+	case nd.kind == "ok":
+		return e.okOut[nd.variant%len(e.okOut)]
+	}
+	return e.badOut[nd.variant%len(e.badOut)]
+}
+
 func (e *c20Env) script(rel, logPath string, nd *c20Node) string {
 	b := &strings.Builder{}
 	fmt.Fprintf(b, "#!/bin/bash\necho %q \"$*\" >> %q\n", rel, logPath)
 	switch nd.kind {
 	case "ok":
-		fmt.Fprintf(b, "cat <<'EOF_CFG'\n%s\nEOF_CFG\n", e.okOut[nd.variant%len(e.okOut)].text)
+		fmt.Fprintf(b, "cat <<'EOF_CFG'\n%s\nEOF_CFG\n", e.out(nd).text)
 	case "invalid":
-		o := e.badOut[nd.variant%len(e.badOut)].text
+		o := e.out(nd).text
 		if o != "" {
 			fmt.Fprintf(b, "cat <<'EOF_CFG'\n%s\nEOF_CFG\n", o)
 		}
@@ -154,10 +171,8 @@ func (e *c20Env) materialise(dir, rel, logPath string, nodes []*c20Node) error {
 // exactly the hook prints / does (the Lean driver reads the part before the colon).
 func (e *c20Env) kindTok(nd *c20Node) string {
 	switch nd.kind {
-	case "ok":
-		return "ok:" + e.okOut[nd.variant%len(e.okOut)].class
-	case "invalid":
-		return "invalid:" + e.badOut[nd.variant%len(e.badOut)].class
+	case "ok", "invalid":
+		return nd.kind + ":" + e.out(nd).class
 	case "fail":
 		return "fail:" + []string{"exit3", "valid-output-then-exit1", "kill9"}[nd.variant%3]
 	}
@@ -407,7 +422,7 @@ func (e *c20Env) classify(c *Case, rootName string, nodes []*c20Node) {
 				bad++
 			}
 			if n.kind == "invalid" && n.mode&0o111 != 0 {
-				c.Note("invalid-cfg:" + c20CfgFamily(e.badOut[n.variant%len(e.badOut)].class))
+				c.Note("invalid-cfg:" + c20CfgFamily(e.out(n).class))
 			}
 		}
 	}
@@ -564,6 +579,17 @@ func runC20(r *Run) {
 			d("003-good", &c20Node{name: "hook.sh", mode: 0o755, kind: "ok", variant: i})}
 		c.Desc = "catalogue: invalid configuration " + o.class
 		c.Note("catalogue-invalid:" + c20CfgFamily(o.class))
+		c.Nontrivial = true
+		e.runCase(r, c, "hooks", nodes, true)
+	})
+	// generated schedule lists (1-4 entries, each crontab valid or not, both formats, both syntaxes)
+	r.Cases(30000, r.N(120, 800), 0, func(c *Case, rng *Rng) {
+		g := &c20Node{name: []string{"cron-hook.sh", "hook", "b.py"}[c.Idx%3], mode: 0o755}
+		g.kind, g.class, g.text = c20GenSchedules(rng, rng.Chance(60))
+		nodes := []*c20Node{d("001-good", f("hook.sh", 0o755, "ok")), d("002-x", g),
+			d("003-good", &c20Node{name: "hook.sh", mode: 0o755, kind: "ok", variant: c.Idx})}
+		c.Desc = "generated schedule list " + g.class
+		c.Note("generated-schedules:" + g.kind + ":" + c20CfgFamily(strings.TrimPrefix(g.class, "gen-")))
 		c.Nontrivial = true
 		e.runCase(r, c, "hooks", nodes, true)
 	})
